@@ -21,7 +21,7 @@ from ..seams.flow import SimSource, ProbeCall, ProbeRun, ProbeFC
 PROPERTY = "C18"
 LEVEL = "fault_enumeration"
 SWEEP = True
-N_RUNS = {"quick": 300000, "thorough": 1000000}
+N_RUNS = {"quick": 300000, "thorough": 2000000}
 RULE = ("each run draws a pipeline (Sequence or Source form, 1-2 Cache elements, 0-2 probe "
         "elements before/between/after, optional fill/compute accumulator upstream, plain / "
         "sub-directory / formatted cache file name, pickle protocol 0-5) and a history of 1-5 "
